@@ -20,7 +20,7 @@ func (c15) Size(tier string) Size {
 	return Size{Batches: 16, Cases: 8000}
 }
 func (c15) Rule() string {
-	return "case = schema of 0-5 soft types x 0-4 relationships built coherent and then perturbed with 0..n planted faults (missing target, missing / misnamed / mis-typed inverse, wrong (also empty) FromType on one-way and two-way relationships, self-referential relationships, nil maps, attributes named like relationships); oracle = my own predicate offending(rel): len(Check())==0 iff no offending relationship, len(Check()) >= number of offending relationships, no panic, deep schema fingerprint unchanged. Names include '_' (a_b / b_c style collisions); in 2 of 5 types the Rels map keys are not the relationships' FromName (prefixed, or rotated among siblings): a relationship is what it says, not the key it is stored under. Non-trivial = >= 2 relationships with at least one naming an inverse."
+	return "case = schema of 0-5 soft types x 0-4 relationships built coherent and then perturbed with 0..n planted faults (missing target - also a near miss of an existing name: suffix, prefix, case, surrounding white space -, missing / misnamed / mis-typed inverse, wrong (also empty) FromType on one-way and two-way relationships, self-referential relationships, nil maps, attributes named like relationships); oracle = my own predicate offending(rel): len(Check())==0 iff no offending relationship, len(Check()) >= number of offending relationships, no panic, deep schema fingerprint unchanged. Names include '_' (a_b / b_c style collisions); in 2 of 5 types the Rels map keys are not the relationships' FromName (prefixed, or rotated among siblings): a relationship is what it says, not the key it is stored under. Non-trivial = >= 2 relationships with at least one naming an inverse."
 }
 func (c15) Assumptions() []string {
 	return []string{"reading: 'reciprocated by a relationship of the target type that names it back' includes the back-reference's target type (the quantifier lists mis-typed inverses separately from misnamed ones)",
@@ -251,7 +251,7 @@ func (m c15) Case(c *Ctx, r *RNG) {
 		switch kind {
 		case 0:
 			// a missing target: unrelated name, or a near miss of an existing one (extension, prefix, case variant)
-			cands := []string{"missing", owner + "s", rel.ToType + "x", rel.ToType + rel.ToType, strings.ToUpper(rel.ToType), strings.TrimSuffix(rel.ToType, rel.ToType[max(len(rel.ToType)-1, 0):]), ""}
+			cands := []string{"missing", owner + "s", rel.ToType + "x", rel.ToType + rel.ToType, strings.ToUpper(rel.ToType), rel.ToType + " ", " " + rel.ToType, "\t" + rel.ToType, rel.ToType + "\n", strings.TrimSuffix(rel.ToType, rel.ToType[max(len(rel.ToType)-1, 0):]), ""}
 			rel.ToType = "missing"
 			for _, cnd := range cands[r.Intn(len(cands)):] {
 				if _, exists := types[cnd]; !exists {
